@@ -302,6 +302,37 @@ def check_perm_undo(prog, rep):
         raise AnalysisError('PERM-undo: uses of site.perm in exact_diag.py not found')
 
 
+def check_bond_convention(prog, rep):
+    """H_bond[j] acts on the sites (j-1, j); MPS.expectation_value applies the k-th operator of a
+    list on the sites (k, k+1). A list handed to expectation_value must therefore start with
+    H_bond[1] (finite: H_bond[1:], infinite: H_bond[1:] + H_bond[:1], result rolled back)."""
+    n = 0
+    for rel in (MODEL, 'tenpy/algorithms/tebd.py', 'tenpy/algorithms/purification.py',
+                'tenpy/simulations/measurement.py'):
+        m = prog.module(rel)
+        for q, f0 in m.functions.items():
+            if 'H_bond' not in unparse(f0) or 'expectation_value' not in unparse(f0):
+                continue
+            f = inline_temps(f0)
+            for c in body_nodes(f):
+                if isinstance(c, ast.Call) and call_name(c) == 'expectation_value' and c.args and \
+                        'H_bond' in unparse(c.args[0]):
+                    n += 1
+                    a = c.args[0]
+                    ok = bool(pmatch('$$h.H_bond[1:]', a) or
+                              pmatch('$$h.H_bond[1:] + $$h.H_bond[:1]', a))
+                    rep.instance('BOND-convention', {'function': q, 'operators': unparse(a)[:60],
+                                                     'starts_with_bond_1': ok})
+                    if not ok:
+                        rep.violation('BOND-convention', m, q, 'bond-shift',
+                                      '`%s`: expectation_value applies the k-th operator on sites '
+                                      '(k, k+1), but H_bond[k] belongs to the bond (k-1, k): the '
+                                      'energies are evaluated one bond off (wrong unless the unit '
+                                      'cell is translation invariant)' % unparse(c)[:80], c.lineno)
+    if n < 2:
+        raise AnalysisError('BOND-convention: uses of H_bond in expectation_value not found')
+
+
 def check_onsite_weights(prog, rep):
     """When on-site terms are folded into nearest-neighbour bond operators every site's term must
     enter with total weight 1: 1/2 on each of its two bonds, except the end sites of a FINITE
@@ -522,6 +553,7 @@ def run(prog, rep, tier):
     check_term_classes(prog, rep)
     check_jw_in_model(prog, rep)
     check_onsite_weights(prog, rep)
+    check_bond_convention(prog, rep)
     check_perm_undo(prog, rep)
     rep.floor('PLUSHC-guard', 9)
     rep.floor('PLUSHC-hc-block', 9)
